@@ -1253,6 +1253,15 @@ def _bi_object_new(s,f,args,kw,st):
 
 def _bi_minmax(s,f,args,kw,st):
   vals=args
+  if len(args)==2 and any(isinstance(a,Ref) for a in args):
+    # CPython: min(x,y) is y if y < x else x ; max(x,y) is y if y > x else x  (first argument wins ties)
+    x,y=args
+    for st1,r in s.compare(ast.Lt if f.name=='min' else ast.Gt,y,x,st):
+      if isinstance(r,Exc): yield st1,r; continue
+      for st2,t in s.truth(r,st1):
+        if isinstance(t,Exc): yield st2,t; continue
+        for st3,side in s.branch(st2,t): yield st3,(y if side else x)
+    return
   if len(args)==1 and isinstance(args[0],Tup): vals=args[0].items
   xs=[as_int(v) for v in vals]
   if any(x is None for x in xs): raise Unsupported("min/max of non-int")
